@@ -311,7 +311,7 @@ fn pick_count(src: &mut Src, min: usize, max: usize, o: &GenOpts) -> usize {
         3 | 4 => (min + 1).min(hi),
         5 => (min + 2).min(hi),
         6 => {
-            if o.allow_cap && max != UNBOUNDED && max <= 12 {
+            if o.allow_cap && max != UNBOUNDED && max <= 100 {
                 if o.over_cap && src.flip() { max + 1 } else { max }
             } else {
                 (min + 1).min(hi)
